@@ -66,14 +66,14 @@ PROPS = {
     "C32": {
         "units": ["range"],
         "level": "proof",
-        "clause": "Clause 'every range draw lies within its requested bounds for every width and signedness': random_table::{mask, sign_extend, get, get_range} - for every min/max: u64, "
+        "clause": "Clause 'every range draw lies within its requested bounds for every width and signedness': random_table::{mask, sign_extend, get, get_range} and testbench::range_bound - for every min/max: u64, "
                   "every width <= 64, both signednesses and every value rand may return, the range handed to rand is non-empty and the returned Value has the handle's width and "
                   "signedness, no x/z, fits the width, and read at (width, signed) lies between the two bounds in either order (Kani, loop-free, complete). "
                   "Seed derivation derive_seed(base, name) equals FNV-1a-64 over base||name and reads nothing else (bounded in the name length; free-identifier scan of the extracted body).",
         "assumptions": ["not covered: every scheduling clause of C32 (worker pool, dispatch order, output capture) - schedules are outside this family",
                         "assumed: rand's random_range(lo..=hi) returns lo <= r <= hi and is deterministic for a seeded Pcg64; handle widths <= 64 (analyzer rejects wider $tb::random types)",
-                        "assumed: the call site (simulator/src/testbench.rs RandomGetRange) passes min/max as the handle-width two's-complement patterns of the requested bounds "
-                        "(a defect there - arguments narrower than a signed handle were not sign-extended - was found while deriving this precondition and repaired in /repo, see DESIGN.md 0.3)"],
+                        "the call-site glue range_bound (simulator/src/testbench.rs) is under contract: for well-formed <=64-bit argument values whose integer value is representable in the "
+                        "handle's type, the draw lies between the argument values; that exec_one calls it for both bounds is read off the code, not proved"],
     },
     "C36": {
         "units": ["svlogic"],
